@@ -756,7 +756,9 @@ def _check_emitters(ctx, res: RuleResult):
                         dname = base.func.value.id
                         keyed = any(isinstance(x, ast.Assign) and isinstance(x.targets[0], ast.Subscript) and isinstance(x.targets[0].value, ast.Name)
                                     and x.targets[0].value.id == dname and isinstance(x.targets[0].slice, ast.Name) and label_vars.get(x.targets[0].slice.id) == "label"
-                                    for x in own_walk(fn))
+                                    for x in own_walk(fn)) or \
+                            any(isinstance(x, ast.Call) and isinstance(x.func, ast.Attribute) and x.func.attr == "setdefault" and isinstance(x.func.value, ast.Name) and x.func.value.id == dname
+                                and x.args and isinstance(x.args[0], ast.Name) and label_vars.get(x.args[0].id) == "label" for x in own_walk(fn))
                         if keyed and isinstance(tg, ast.Tuple) and isinstance(tg.elts[0], ast.Name):
                             label_vars[tg.elts[0].id] = "label"
                     continue
@@ -861,6 +863,13 @@ def _iter_source(fi: FuncInfo, it: ast.expr, depth=0) -> Optional[str]:
         return _iter_source(fi, it.args[1], depth + 1)          # map(sorted, m.edges()): the same edges, endpoints ordered
     if isinstance(it, ast.Call) and isinstance(it.func, ast.Attribute) and it.func.attr == "items" and isinstance(it.func.value, ast.Attribute) and it.func.value.attr == "nodes":
         return "nodes_data"                                     # m.nodes.items(): (label, attributes) of every node
+    if isinstance(it, ast.Call) and isinstance(it.func, ast.Attribute) and it.func.attr == "items" and not it.args:
+        # nx.get_node_attributes(m, K).items(): (label, value) of the nodes that carry K
+        b = it.func.value
+        if isinstance(b, ast.Name):
+            b = single_def(fi.node, b.id) or b
+        if isinstance(b, ast.Call) and norm(b.func).endswith("get_node_attributes"):
+            return "nodes_data"
     if isinstance(it, ast.Name):
         d = single_def(fi.node, it.id)
         return _iter_source(fi, d, depth + 1) if d is not None else None
